@@ -2324,7 +2324,8 @@ class Parameters:
             elif affected:
                 # All dynamic watchers of the method are removed, so all
                 # its dynamic dependencies are resolved again below
-                for w in obj._param__private.dynamic_watchers.pop(method, []):
+                replaced = obj._param__private.dynamic_watchers.pop(method, [])
+                for w in replaced:
                     (w.cls if w.inst is None else w.inst).param.unwatch(w)
             else:
                 continue
@@ -2338,6 +2339,15 @@ class Parameters:
             for group in grouped.values():
                 watcher = self_._watch_group(obj, method, queued, group, attribute)
                 obj._param__private.dynamic_watchers[method].append(watcher)
+                if init:
+                    continue
+                # A watcher queued in an open batch hands its place to the
+                # watcher replacing it, so that the method still runs once
+                pending = (watcher.cls if watcher.inst is None else watcher.inst).param._state_watchers
+                for w in replaced:
+                    if (w.inst is watcher.inst and w.cls is watcher.cls and w.what == watcher.what
+                            and w.parameter_names == watcher.parameter_names):
+                        pending[:] = [watcher if q is w else q for q in pending]
         for m in init_methods:
             m()
 
